@@ -41,6 +41,19 @@ def _always_exits(stmts):
     return False
 
 
+def _definitely_assigns(stmts, name):
+    for st in stmts:
+        if isinstance(st, ast.Assign) and any(isinstance(t, ast.Name) and t.id == name for t in st.targets):
+            return True
+        if isinstance(st, ast.If) and _definitely_assigns(st.body, name) and _definitely_assigns(st.orelse, name):
+            return True
+        if isinstance(st, ast.With) and _definitely_assigns(st.body, name):
+            return True
+        if isinstance(st, ast.Try) and _definitely_assigns(st.body, name) and all(_definitely_assigns(h.body, name) or _always_exits(h.body) for h in st.handlers):
+            return True
+    return False
+
+
 def clone(node, repl=None):
     """structural copy of an AST (fields only: no parent links), substituting nodes by id"""
     repl = repl or {}
@@ -144,6 +157,51 @@ class Flow:
                 if isinstance(p, (ast.For, ast.While, ast.AsyncFor)) and any(a is p for a in anc):
                     return None
         return v
+
+    def reaching_defs(self, name, at):
+        """every defining expression of ``name`` that may reach ``at`` (branches merged): the last dominating assignment
+        unless the conditional assignments after it cover all paths, plus those conditional assignments.
+        None when some definition is not a plain assignment (loop variable, augmented, unpacking)"""
+        one = self.reaching_def(name, at)
+        pos = (getattr(at, "lineno", None), getattr(at, "col_offset", 0))
+        if pos[0] is None:
+            return [one] if one is not None else None
+        before = [(s, v) for s, v in self._assign_stmts(name) if (s.lineno, s.col_offset) < pos and not _contains(s, at)]
+        if not before:
+            return None
+        if any(v is None for s, v in before):
+            return None
+        anc = [at] + list(parents(at))
+
+        def dominates(s):
+            owner = getattr(s, "_parent", None)
+            if not any(a is owner for a in anc):
+                return False
+            for field in ("body", "orelse", "finalbody", "handlers"):
+                blk = getattr(owner, field, None)
+                if isinstance(blk, list) and any(x is s for x in blk):
+                    return any(any(a is x for a in anc) for x in blk)
+            return True
+        doms = [(s, v) for s, v in before if dominates(s)]
+        last_dom = max(doms, key=lambda sv: (sv[0].lineno, sv[0].col_offset)) if doms else None
+        cond = [(s, v) for s, v in before if not dominates(s) and (last_dom is None or (s.lineno, s.col_offset) > (last_dom[0].lineno, last_dom[0].col_offset))]
+        if not cond:
+            return [last_dom[1]] if last_dom is not None else None
+        # do the conditional assignments cover every path?  look at the outermost statement holding them
+        tops = set()
+        for s, _ in cond:
+            t = s
+            while getattr(t, "_parent", None) is not None and not any(a is t._parent for a in anc):
+                t = t._parent
+            tops.add(id(t))
+            top = t
+        covered = len(tops) == 1 and _definitely_assigns([top], name)
+        out = [v for _, v in cond]
+        if not covered:
+            if last_dom is None:
+                return None
+            out.insert(0, last_dom[1])
+        return out
 
     def expand(self, expr, depth=8, stop=()):
         """copy of expr with locals replaced by their (reaching) definitions"""
